@@ -29,7 +29,7 @@ CHECKS = {
         "regenerated truth table of the relative-volume condition, the handler is a total function that never raises for EVERY store, EVERY sequence of received byte lines (any bytes) and every float()/int()/str() "
         "oracle; relative Up/Down values go through arithmetic iff the function is VOL or ZONEBVOL, identically for Up and Down, and are otherwise stored like any value; a step that cannot be applied is answered "
         "with an error line and changes nothing. With a guard missing the model raises where the code raises (the model and the unrepaired code agreed line by line on every session). The real handler is fed every "
-        "command the typed API emits (1916 wire lines from real subunit instances) and generated hostile lines (unknown names, Up/Down variants, huge amounts, malformed text, invalid UTF-8) on every bundled recording.",
+        "command the typed API emits (1916 wire lines from real subunit instances) and generated hostile lines (unknown names, Up/Down variants, huge amounts, malformed text, invalid UTF-8) on every bundled recording. Frame theorems for every guard configuration: no command adds or removes a key; a PUT leaves every stored value alone except the one it names and, for PWR, the PWR/PWRB values it is coupled with.",
         note=BASE_NOTE + "Modelled, not verified: socketserver (an exception escaping handle() closes the socket: read from the standard library), bytes.strip/decode (Base/Utf8.v, validated by correspondence), "
         "float()/int()/str(float) as universally quantified oracles, int->float OverflowError threshold written into the model (2^1024 - 2^970).",
         technique="Coq proof (total function with explicit exception channel, guards regenerated from the AST) + differential correspondence on typed-API and hostile lines",
@@ -133,7 +133,7 @@ CHECKS = {
         "interleaving, any device): FIFO (enq = deq ++ queue), exactly-once/in-order (written items ++ item in hand = non-marker items dequeued), wire is a prefix of the "
         "submissions, per-caller order, idle implies all written, each write is frame(text) = one CRLF line that decodes back unchanged, only the sender writes. "
         "The real ynca/pyserial threads run unmodified under a deterministic simulation harness; each recorded event trace is replayed in the model (every event must be enabled; "
-        "wire, deliveries and log equal) and judged by an independent monitor.",
+        "wire, deliveries and log equal) and judged by an independent monitor. A quarter of the sessions run beside a second, independent connection of the same process and a fifth are the second session of the same object (nothing may cross over or carry over).",
         note=BASE_NOTE + "Modelled, not verified: pyserial ReaderThread/LineReader, queue.Queue, threading.Event/Lock/Thread.join, time.sleep and the port are replaced by the harness's simulated primitives (their contracts are the model's assumptions); real-clock behaviour and OS scheduling latency are outside every theorem.",
         technique="Coq proof by invariants over a labelled transition system (all schedules) + trace-inclusion correspondence via deterministic simulation",
         design_ref="6 (C01), 3.3, 4.2",
@@ -178,7 +178,7 @@ CHECKS = {
         "only while initialised, cache updated first). Concurrent half: Coq LTS of one delivery over a snapshot with a membership test per callback under ARBITRARY interleaved "
         "register/unregister/clear actions; pointwise invariants give: complete delivery => every callback registered at the snapshot and not unregistered since was invoked exactly once, "
         "nothing else, nobody twice; mutations are always enabled; the loop always progresses. Real subunits/connection run under the deterministic harness with re-entrant and "
-        "cross-thread mutation programs; each callback set's event trace is replayed in the model; monitor judges every delivery.",
+        "cross-thread mutation programs; each callback set's event trace is replayed in the model; monitor judges every delivery. An API-level monitor (built only from the register/unregister/close calls made and the invocations seen, with plain functions and bound methods as callbacks) judges every delivery independently of how the library stores callbacks.",
         note=BASE_NOTE + "Modelled, not verified: pyserial ReaderThread/LineReader, queue.Queue, threading.Event/Lock/Thread.join, time.sleep and the port are replaced by the harness's simulated primitives (their contracts are the model's assumptions); real-clock behaviour and OS scheduling latency / thread teardown are outside every theorem.",
         technique="Coq proof by induction over histories + pointwise invariants over an LTS (all interleavings) + trace-inclusion correspondence via deterministic simulation",
         design_ref="6 (C09)",
@@ -188,7 +188,7 @@ CHECKS = {
         "callback invoked at most once and only at the end of connection_lost (exactly once when still set: the reader's steps are forced), connected False from the first step of "
         "connection_lost, no delivery afterwards, the lost path never blocks without a finite deadline; plus, on the connection LTS, the multiset theorem "
         "#written(x) + #drained(x) <= #submitted(x) (discarded, not written). Sessions with a transport fault at random points run under the deterministic harness, are replayed in both "
-        "machines and judged by a monitor (callback count, connected flag, writes after the drain, thread termination, later API calls).",
+        "machines and judged by a monitor (callback count, connected flag, writes after the drain, thread termination, later API calls). Progress measure: in every run the reader takes at most ten progress steps of its own from its loop to termination and nobody moves it backwards (LifeMore.v). The connection machine has the connection-lost flag: the sender drops what it dequeues once the flag is set and stops.",
         note=BASE_NOTE + "Modelled, not verified: pyserial ReaderThread/LineReader, queue.Queue, threading.Event/Lock/Thread.join, time.sleep and the port are replaced by the harness's simulated primitives (their contracts are the model's assumptions); real-clock behaviour and OS scheduling latency / thread teardown are outside every theorem." + " PARTIAL: thread termination is proved as bounded blocking of the lost path and observed on every simulated run, not proved as OS-level liveness.",
         technique="Coq proof by invariants over LTSs (all fault positions and interleavings) + trace-inclusion correspondence via deterministic simulation with fault injection",
         design_ref="6 (C15)",
@@ -197,7 +197,7 @@ CHECKS = {
         text="Coq LTS of the life cycle with any number of concurrent/repeated close() calls on other threads and close() on the reader thread itself; invariants for EVERY action list: "
         "once a close() has started (_closed set) the user's disconnect callback is never invoked again; a cleared callback stays cleared and is never invoked after a later read; once a "
         "close() has returned the port is closed, the reader is told to stop, and no sender write can succeed; close() can start in any state and its join has a finite deadline. "
-        "Sessions with close() from caller threads, the main thread, inside message/disconnect callbacks, during connect(), repeated and concurrent, are simulated, replayed and monitored.",
+        "Sessions with close() from caller threads, the main thread, inside message/disconnect callbacks, during connect(), repeated and concurrent, are simulated, replayed and monitored. Progress measure for close(): moved only by its own steps, each strictly forward (at most seven after it started). Scenarios include close() after the link was already lost and close() while YncaApi.initialize() is running.",
         note=BASE_NOTE + "Modelled, not verified: pyserial ReaderThread/LineReader, queue.Queue, threading.Event/Lock/Thread.join, time.sleep and the port are replaced by the harness's simulated primitives (their contracts are the model's assumptions); real-clock behaviour and OS scheduling latency / thread teardown are outside every theorem." + " PARTIAL: 'returns without raising' is absence of a raising transition in the transcribed close(), tied to the code by replay (a raise is an event the model refuses).",
         technique="Coq proof by invariants over an LTS (all interleavings of closers, reader and sender) + trace-inclusion correspondence via deterministic simulation",
         design_ref="6 (C16)",
